@@ -288,6 +288,7 @@ func (c *vfConn) nWrites() int {
 type vfRand struct {
 	mu    sync.Mutex // crypto/rand.Reader is safe for concurrent use
 	draws [][]byte
+	fixed bool // deliver fixed bytes instead of arbitrary ones (two-dimension tiers)
 }
 
 func (r *vfRand) Read(p []byte) (int, error) {
@@ -295,7 +296,11 @@ func (r *vfRand) Read(p []byte) (int, error) {
 	defer r.mu.Unlock()
 	d := make([]byte, len(p))
 	for i := range p {
-		p[i] = vfByte()
+		if r.fixed {
+			p[i] = byte(0x5a + 7*i)
+		} else {
+			p[i] = vfByte()
+		}
 		d[i] = p[i]
 	}
 	r.draws = append(r.draws, d)
